@@ -1,5 +1,6 @@
 import PcVerif.Ops.Caption
 import PcVerif.Spec.TextDecode
+import PcVerif.Spec.VttDecode
 import PcVerif.Model.XmlText
 import PcVerif.Model.World
 import PcVerif.Model.XmlTree
@@ -27,7 +28,9 @@ def textWriterOps : List (String × Handler) := [
   ("vtt.groups", fun a => match a with
     | [n] => encList (fun (g : Str × Nat) => encStr g.1 ++ ":" ++ toString g.2) (vttGroups (decLNodes n)) | _ => "bad-args"),
   ("xml.escape", fun a => match a with | [s] => encStr (escape (decStr s)) | _ => "bad-args"),
-  ("spec.xml.unescape", fun a => match a with | [s] => encStr (Spec.xmlUnescape (decStr s)) | _ => "bad-args")
+  ("spec.xml.unescape", fun a => match a with | [s] => encStr (Spec.xmlUnescape (decStr s)) | _ => "bad-args"),
+  ("vttw.encode", fun a => match a with | [s] => encStr (vttEncode (decStr s)) | _ => "bad-args"),
+  ("spec.vtt.decode", fun a => match a with | [s] => encStr (Spec.vttDecode (decStr s)) | _ => "bad-args")
 ]
 end PcVerif.Ops
 
